@@ -16,6 +16,7 @@ import traceback
 from pathlib import Path
 
 NONE = {"kind": "none"}
+NOARG = {"head": 0, "left": 0, "calls": 0}
 WRITERS = {
     # name -> (store kind, suffix, spec's WriterTyped)
     "write_seqs": ("dir", "fasta", True),
@@ -83,12 +84,24 @@ def _abstract_value(obj, anomalies):
 def _abstract_seqs(d, anomalies):
     src = _payload_index(d.get("id"), anomalies)
     trail = [1]
-    for k in sorted(x for x in d if x != "id"):
+    rec_arg = None
+    if "arg" in d:
+        import re
+
+        m = re.fullmatch(r"(A*)(C*)(G*)T", d["arg"])
+        if m:
+            rec_arg = {"head": len(m.group(1)), "left": len(m.group(2)), "calls": len(m.group(3))}
+        else:
+            anomalies.append("completed-content-arg-unreadable")
+    for k in sorted(x for x in d if x not in ("id", "arg")):
         if k.startswith("g") and k[1:].isdigit() and d[k] == "ACGT"[: int(k[1:])]:
             trail.append(int(k[1:]))
         else:
             anomalies.append("completed-content-extra-seq")
-    return {"kind": "completed", "src": src, "trail": trail, "wrong": 0}
+    rec = {"kind": "completed", "src": src, "trail": trail, "wrong": 0}
+    if rec_arg is not None:
+        rec["_arg"] = rec_arg  # popped by the callers: what the function style step's call found
+    return rec
 
 
 def _abstract_nc(nc, anomalies, expect=None):
@@ -225,6 +238,7 @@ def project_store(ds, writer, n, tag, raw=None):
     kind, suffix, _ = WRITERS[writer]
     anomalies = []
     written = [dict(NONE) for _ in range(n)]
+    argseen = [dict(NOARG) for _ in range(n)]
     for nc, members in ((False, list(ds.completed)), (True, list(ds.not_completed))):
         seen = set()
         for m in members:
@@ -241,10 +255,13 @@ def project_store(ds, writer, n, tag, raw=None):
             rec = decode_nc(writer, data, anomalies, i) if nc else decode_completed(writer, data, anomalies)
             if raw is not None:
                 raw[str(i)] = canon_hash(writer, data)
+            arg = rec.pop("_arg", None)
             if written[i - 1]["kind"] != "none":
                 anomalies.append(f"{tag}:completed-and-not-completed-record")
                 continue
             written[i - 1] = rec
+            if arg is not None:
+                argseen[i - 1] = arg
             try:
                 import hashlib
 
@@ -254,6 +271,8 @@ def project_store(ds, writer, n, tag, raw=None):
                     anomalies.append(f"{tag}:md5-" + ("wrong" if md5 else "missing"))
             except Exception:
                 anomalies.append(f"{tag}:md5-raised")
+    if raw is not None:
+        raw["argseen"] = argseen
     return written, sorted(set(anomalies))
 
 
@@ -328,7 +347,13 @@ def make_steps(job, ctl=None):
         payloads = {name_of(i + 1): payload_of(i + 1) for i in range(n)}
         step3 = A.STEP3[job.get("step3") or "typed"]
         return A.c14_vload(plan, vclass, payloads, **sched) + A.c14_v1(plan, vclass, payloads) + step3(plan, vclass, payloads)
-    return A.c14_load(plan, vclass=vclass, **sched) + A.c14_g1(plan, vclass=vclass) + A.c14_g2(plan, vclass=vclass)
+    if job.get("step2") == "fn":
+        # the harness keeps the objects it constructs the app with: they must never change either
+        job["_ctor_args"] = (list(A.ARG0_TICKETS), dict(A.ARG0_CFG))
+        step2 = A.c14_fn(plan, vclass, job["_ctor_args"][0], cfg=job["_ctor_args"][1])
+    else:
+        step2 = A.c14_g1(plan, vclass=vclass)
+    return A.c14_load(plan, vclass=vclass, **sched) + step2 + A.c14_g2(plan, vclass=vclass)
 
 
 def build_app(job, ods, ctl):
@@ -353,6 +378,8 @@ def make_inputs(job):
 
     ind = Path(job["in_dir"])
     names = [name_of(i) for i in job.get("subset") or range(1, job["n"] + 1)]
+    if job.get("rev"):
+        names.reverse()
     if job["inputs"] == "path":
         return [str(ind / f"{nm}.fasta") for nm in names]
     ins = DataStoreDirectory(ind, suffix="fasta")
@@ -451,6 +478,7 @@ def run_job(job, root: Path):
     wanom = []
     for ts, k, i, uid, data in tap.events:
         rec = decode_nc(job["writer"], data, wanom, i) if k == "not_completed" else decode_completed(job["writer"], data, wanom)
+        rec.pop("_arg", None)
         obs["writes"].append({"ts": ts, "kind": k, "i": i, "uid": uid, "rec": rec, "hash": canon_hash(job["writer"], data)})
     if "unforced" in state:
         obs["unforced"] = state["unforced"]
@@ -467,7 +495,13 @@ def run_job(job, root: Path):
         obs["disk"], obs["disk_anomalies"] = project_store(ro, job["writer"], n, "disk", raw)
     finally:
         close_store(ro)
+    obs["argseen"] = raw.pop("argseen", None)
     obs["raw"] = raw
+    if "_ctor_args" in job:
+        import apps_C14 as A
+
+        obs["ctor_args_unchanged"] = job["_ctor_args"] == (A.ARG0_TICKETS, A.ARG0_CFG)
+        del job["_ctor_args"]
     if ctl is not None:
         stamps = {}
         for p in (ctl / "stamp").iterdir():
@@ -488,8 +522,10 @@ def run_as_completed(job, root: Path):
     root.mkdir(parents=True, exist_ok=True)
     inputs = make_inputs(job)
     app = make_steps(job)
+    job.pop("_ctor_args", None)
     out = []
     anomalies = []
+    argseen = [dict(NOARG) for _ in range(job["n"])]
     try:
         for r in app.as_completed(inputs, show_progress=False):
             src = index_of_name(get_unique_id(r.source))
@@ -500,7 +536,9 @@ def run_as_completed(job, root: Path):
             else:
                 a = _abstract_value(obj, anomalies)
                 val = {"k": "val", "src": a["src"], "trail": a["trail"], "wrong": a["wrong"]}
+                if "_arg" in a and 1 <= src <= len(argseen):
+                    argseen[src - 1] = a["_arg"]
             out.append({"src": src, "obj": val})
-        return {"ret": "ok", "results": out, "anomalies": anomalies}
+        return {"ret": "ok", "results": out, "anomalies": anomalies, "argseen": argseen}
     except Exception as ex:
         return {"ret": "raised", "exception": type(ex).__name__, "traceback": traceback.format_exc()[-1500:], "results": out, "anomalies": anomalies}
